@@ -413,6 +413,7 @@ type harness struct {
 	layoutN int
 	nbuf    int
 	nfa     int
+	nwide   int
 	nsig    map[string]int
 }
 
@@ -529,6 +530,9 @@ func (h *harness) oracle(xs []pdf.Object, class string) {
 		}
 	}
 	for mask := 0; mask < 32; mask++ {
+		if strings.HasPrefix(class, "wide") && mask%5 != 0 {
+			continue // wide values: 7 of the 32 option masks (each option on and off)
+		}
 		opt := optOf(mask)
 		t1, err := realFormat(opt, xs)
 		if err != nil {
@@ -701,7 +705,11 @@ func (h *harness) objects(xs []pdf.Object, class string, nontrivial bool) {
 		}
 		h.deterministic(xs, reps, class)
 	}
+	h.nwide++
 	for p := 0; p < 2; p++ {
+		if strings.HasPrefix(class, "wide") && p != h.nwide%2 {
+			continue // wide cases: the model sees one of the two styles, alternating (the oracle sees both)
+		}
 		opt := pdf.OutputOptions(0)
 		if p == 1 {
 			opt = pdf.OptPretty
@@ -1405,6 +1413,94 @@ func phase1() {
 			xs = append(xs, h.robj(2))
 		}
 		h.objects(xs, "long-sequence", true)
+	}
+
+	// 5c. many small values in one scanner: width far beyond the depth limit.  Whatever state the
+	// scanner keeps between values (nesting counter, flags, buffer bookkeeping) must be the same
+	// after value k as before it: hundreds to thousands of empty arrays, empty dictionaries, empty
+	// strings and names, nulls and nested-then-closed containers, as a flat sequence, as the
+	// elements of one array, as the values of one dictionary and scattered through a tree; under
+	// the standard limits and with short strings/names but wide containers.
+	h.pfx = "w"
+	{
+		smallItems := []func() pdf.Object{
+			func() pdf.Object { return pdf.Array{} },
+			func() pdf.Object { return pdf.Dict{} },
+			func() pdf.Object { return pdf.String("") },
+			func() pdf.Object { return pdf.Name("") },
+			func() pdf.Object { return nil },
+			func() pdf.Object { return pdf.Array(nil) },
+			func() pdf.Object { return pdf.Dict(nil) },
+			func() pdf.Object { return pdf.Array{pdf.Array{}} },
+			func() pdf.Object { return pdf.Array{pdf.Array{pdf.Array{}}} },
+			func() pdf.Object { return pdf.Dict{"K": pdf.Array{}} },
+			func() pdf.Object { return pdf.Dict{"A": pdf.Dict{}, "B": pdf.Array{}} },
+			func() pdf.Object { return pdf.Array{pdf.Dict{}, pdf.Array{}, nil} },
+			func() pdf.Object { return pdf.Integer(0) },
+			func() pdf.Object { return pdf.Boolean(true) },
+			func() pdf.Object { return pdf.NewReference(1, 0) },
+			func() pdf.Object { return pdf.Real(0.5) },
+			func() pdf.Object { return pdf.String("a\r") },
+			func() pdf.Object { return pdf.Array{pdf.String("("), pdf.Name("#")} },
+		}
+		forms := func(items []pdf.Object, class string) {
+			h.objects(items, class, true) // a flat sequence
+			h.objects([]pdf.Object{append(pdf.Array{}, items...)}, class, true)
+			d := pdf.Dict{}
+			for i, it := range items {
+				d[pdf.Name("K"+strconv.Itoa(i))] = it
+			}
+			h.objects([]pdf.Object{d, pdf.Array{}}, class, true)
+			var tree pdf.Array
+			for i := 0; i < len(items); i += 16 {
+				j := i + 16
+				if j > len(items) {
+					j = len(items)
+				}
+				tree = append(tree, pdf.Dict{"C": append(pdf.Array{}, items[i:j]...), "E": pdf.Array{}})
+			}
+			h.objects([]pdf.Object{tree, pdf.Array{}, pdf.Dict{}}, class, true)
+		}
+		for round := 0; round < 2; round++ {
+			if round == 1 {
+				h.useLimits(lim{8, 6, 5000, 3000, stdLim.depth})
+			}
+			for k, mk := range smallItems {
+				for _, n := range []int{256, 300 + 37*k} {
+					if (n == 256) != (k%2 == 0) || (round == 1 && k%3 != 0) {
+						continue
+					}
+					items := make([]pdf.Object, n)
+					for i := range items {
+						items[i] = mk()
+					}
+					forms(items, "wide-same")
+				}
+			}
+			for _, n := range []int{255, 257, 1000, e.Pick(2000, 20000)} {
+				if round == 1 && n != 257 && n != 1000 {
+					continue
+				}
+				items := make([]pdf.Object, n)
+				for i := range items {
+					items[i] = smallItems[e.Rand.IntN(len(smallItems))]()
+				}
+				forms(items, "wide-mixed")
+			}
+		}
+		h.useLimits(stdLim)
+		// the same as raw texts, with and without white space inside and between the values
+		for _, unit := range []string{"[]", "[ ]", "[]\n", "[\n]", "<<>>", "<< >>", "[[]]", "()", "<>", "/ ", "[<<>>]", "<</K[]>>", "<</K<<>>>>",
+			"null ", "[]<<>>()", "[()]", "[/]", "1 0 R ", "[1 0 R]", "(\\\r)\n", "%c\n[]"} {
+			for _, n := range []int{254, 255, 256, 257, 700} {
+				t := strings.Repeat(unit, n)
+				h.text([]byte(t), "wide-text")
+				h.text([]byte("["+t+"]"), "wide-text")
+				if n <= 256 {
+					h.text([]byte("<</A["+t+"]/B "+t+">>"), "wide-text")
+				}
+			}
+		}
 	}
 
 	// 6. mutated texts, (c)
